@@ -1133,7 +1133,8 @@ func genWorldC10(seed uint64, faults bool) *World {
 			// F-panic inside one operation of this object; it is the object's last
 			k := r.n(len(q))
 			if panicOK(q[k].Kind) {
-				q[k].PanicAt = 1 + r.n(60)
+				// early, middle or late in the operation
+				q[k].PanicAt = 1 + r.n([]int{60, 60, 400, 400, 3000}[r.n(5)])
 				q = q[:k+1]
 			}
 		}
